@@ -43,12 +43,15 @@ func CheckC03(tier string) int {
 // CheckC13: no redirection of port / relay chain.
 func CheckC13(tier string) int {
 	props := map[string]bool{"C13": true}
-	models := []*PktModel{core2("core2", props, "try"), core3("core3", props, "try")}
-	depth := []int{6, 6}
+	core4 := core3("core4", props, "try")
+	core4.Names = []string{A, B, C, D}
+	nft := nft3("nft3", props, NftScenario{MaxUserTx: 2, Receivers: []int{1}, BadReceiver: true, Relays: true}, "try")
+	models := []*PktModel{core2("core2", props, "try"), core3("core3", props, "try"), nft, core4}
+	depth := []int{6, 6, 5, 5}
 	if tier == "thorough" {
-		depth = []int{9, 9}
+		depth = []int{9, 9, 7, 7}
 	}
-	return RunPkt("C13", tier, models, depth, tierBudget(tier, 90*time.Second, 15*time.Minute), append([]string{
-		"for every packet the source announced, every receive and acknowledgement message that presents it with another port or an added/removed/replaced relay chain, with the proof the altered packet's own previous hop produces, must be rejected in every reachable state on every chain",
+	return RunPkt("C13", tier, models, depth, tierBudget(tier, 100*time.Second, 15*time.Minute), append([]string{
+		"for every packet the source announced (mock-port packets and NFT transfers, direct and relayed, on 2, 3 and 4 chains), every receive and acknowledgement message that presents it with another port or an added/removed/replaced relay chain, with the proof the altered packet's own previous hop produces, must be rejected in every reachable state on every chain",
 	}, commonAssumptions...))
 }
